@@ -8,6 +8,7 @@ HEADLINE = ["c10_pairs_checked", "c10_producer_steps", "c10_producer_steps_consu
 def plan(tier, seed, scale):
     return {"n_cases": sizes(tier, scale, 2400, 60000), "variants": 4, "force_lazy": True,
             "profiles": ["lazy", "lazy_flat", "core", "data", "big", "par"],
+            "remote_cases": int((32 if tier == "quick" else 1600) * scale),
             "timeout_s": 600 if tier == "quick" else 7200}
 
 
